@@ -190,7 +190,7 @@ def parse_template(text, base_dir='.'):
                 if not m or not cur.get('slice'):
                     raise TemplateError('line %d: bad slice-until directive (needs a preceding slice)' % ln)
                 sec = []
-                cur['slice']['until'] = dict(lit=m.group(1).replace('\\"', '"'), lines=sec)
+                cur['slice']['until'] = dict(lit=m.group(1).replace('\\"', '"').replace('\\n', '\n'), lines=sec)
             elif kw == 'attr':
                 # verifier attribute put in front of the extracted fn (e.g. #[verifier::rlimit(200)]); never changes the fn text
                 cur['attr'] = rest
@@ -556,8 +556,7 @@ def extract(node, variant, report):
             upos = text.find(sl['until']['lit'], apos, it.end)
             if upos < 0:
                 raise AnchorLost('%s: slice-until anchor %r not found in %s' % (node['file'], sl['until']['lit'], ' >> '.join(node['path'])))
-            if text.find(sl['until']['lit'], upos + 1, it.end) >= 0:
-                raise TemplateError('slice-until anchor %r ambiguous in %s' % (sl['until']['lit'], node['path']))
+            # (the FIRST occurrence after the slice start: copy-pasted arms end alike)
             edits = [e for e in edits if e[1] <= upos]
             closing = '\n'.join(_pick(h, variant) for h in sl['until']['lines'])
             edits.append((upos, it.end - 1, closing + '\n', 'R11'))
